@@ -4,7 +4,8 @@ case = {"kind":"frame","hex":<frame bytes>,"how":<provenance, informational>}
 
 impl(case) runs the real code on the frame:
   ethernet(raw=frame)                      -> exception class or the object chain (class, parsed flag, attributes of every layer)
-  .pack(), str(), .dump() of the result    -> bytes / "ok" / exception class
+  .pack(), str(), .dump() of the result    -> bytes / "ok" / exception class; for the fixed corpus, the long frames and one generated case in eight
+                                              also str()/pack() a second time, len() and find() (what a handler does with event.parsed)
   PacketIn(con, ofp_packet_in(data=frame)).parsed   -> exception class or the class/parsed chain (must equal the direct one)
 
 oracle (independent of the Lean model) = the property on those observables: nothing raises; every layer object records `parsed`;
@@ -15,8 +16,13 @@ Model comparison (driver drv_c15, Model/PacketParse.lean): whole outcome for the
 (ethernet, vlan, llc/SNAP, arp, ipv4, udp, tcp+options, icmp echo/unreach/time_exceeded, lldp+TLVs) up to the first layer handed to an
 un-modelled parser (ipv6, icmpv6, dhcp, dns, rip, vxlan, igmp, gre, mpls, eapol/eap, MPTCP option): there the model answers
 `foreign <class> <bytes handed over>` and only the oracle applies to the rest.
+
+Long frames (more than LONG octets, up to the 65000 a packet-in can carry; families LONG_FAMILIES: label / tag stacks, extension-header chains,
+encapsulation, error quoting, option / TLV / record / entry lists, compression-pointer chains, long payloads) are observed and model-compared in
+compact form ([length, Adler-32] for every byte string); the number of nested constructor activations the interpreter had room for — the one
+thing the model leaves abstract — is read off the observed chain (model_request2).
 """
-import os, sys, json, re, struct, importlib, collections, itertools
+import os, sys, json, re, struct, importlib, collections, itertools, zlib
 import common, poxenv
 from common import Check
 import c15_frames as FR
@@ -56,8 +62,24 @@ class _StubCon:
     def __str__(self): return "[stub %s]" % self.dpid
 
 
-def frame_case(b, how):
-    return {"kind": "frame", "hex": bytes(b).hex(), "how": how}
+def frame_case(b, how, **extra):
+    c = {"kind": "frame", "hex": bytes(b).hex(), "how": how}
+    c.update(extra)
+    return c
+
+
+LONG = 1600     # octets.  A frame longer than this is observed in COMPACT form: every byte string of the observables (the `raw` of each layer, the
+                # terminal's bytes, pack()) is recorded as [length, digest] — a 64 KB frame with 500 layers would otherwise be recorded as 500 copies
+                # of itself — and the model is asked (drv_c15, "compact") for the same form.  No frame of the ordinary families is that long.
+
+
+def is_long(case):
+    return len(case["hex"]) > 2 * LONG
+
+
+def digest(b):
+    """[length, Adler-32] (Drivers/C15.lean `digest`)"""
+    return [len(b), zlib.adler32(bytes(b))]
 
 
 class C15(Check):
@@ -97,7 +119,13 @@ class C15(Check):
             "checksum-verified IGMP / ICMPv6 messages with the IPv4-header / IGMP / ICMPv6 checksum recomputed (both tiers, not sliced), all 256 values at "
             "the other header-boundary offsets and the 8 single-bit flips elsewhere (every 64th in the quick tier, all in the thorough tier; mutants behind a "
             "verified checksum also with the checksum recomputed), structure-aware mutants (length fields, option/TLV lengths, header-length nibbles, DNS "
-            "pointers, nesting) or random bytes; distinct = sha1 of the frame; non-trivial = ethernet header parsed and at least one further parser entered")
+            "pointers, nesting) or random bytes; LONG frames of 1.6 to 65 KB (the most a packet-in can carry) made of many repeated small units of every "
+            "self-nesting construct: MPLS label stacks (bare, behind 802.1Q tags, behind LLC/SNAP, with and without a bottom of stack; also around the depth "
+            "at which CPython runs out of stack), 802.1Q tag stacks, IPv6 extension-header chains of every kind, ICMP / ICMPv6 errors quoting errors, IP in GRE "
+            "(also with Ethernet bridging), Ethernet in VXLAN, DHCP option / LLDP TLV / DNS question and record / RIP entry / IGMPv3 group record / NDP option "
+            "lists, DNS names behind chains of up to 4000 compression pointers and of hundreds of labels, and ordinary header chains in front of 64 KB of "
+            "payload (fixed sizes in the corpus, the list families at full size and random sizes / cuts seeded); distinct = sha1 of the frame; non-trivial = "
+            "ethernet header parsed and at least one further parser entered")
 
     # ------------------------------------------------------------------ setup
     def setup(self):
@@ -250,7 +278,7 @@ class C15(Check):
                 mods[mod] += 1
             tb = tb.tb_next
         if isinstance(e, RecursionError) and mods:
-            return "nesting." + "+".join(m for m, _ in mods.most_common(3) if m not in ("packet_base",))[:40]
+            return "nesting." + ("+".join(m for m, _ in mods.most_common(3) if m not in ("packet_base",)) or "packet_base")[:40]
         return loc or "?"
 
     def _exc(self, stage, e):
@@ -297,6 +325,15 @@ class C15(Check):
         if tt == 127: return {"t": 127, "oui": self._hex(g("oui")), "subtype": g("subtype"), "payload": self._hex(g("payload"))}
         return {"t": tt, "payload": self._hex(g("payload"))}
 
+    _lim = 1 << 20
+
+    def _lst(self, seq, f):
+        """[f(x) for x in seq] — unless seq has more elements than the frame has octets (state carried over from other frames: a list that
+        grows with every frame parsed would be copied into the observables of every case): then a marker and the first four"""
+        n = len(seq)
+        if n <= self._lim: return [f(x) for x in seq]
+        return ["!%d elements, the frame has %d octets" % (n, self._lim)] + [f(x) for x in itertools.islice(seq, 4)]
+
     def attrs(self, o):
         """attributes of one behaviour-modelled header object (everything its class serialises or prints)"""
         name = type(o).__name__
@@ -309,27 +346,27 @@ class C15(Check):
                                    "protocol": o.protocol, "csum": o.csum, "srcip": self._ip(o.srcip), "dstip": self._ip(o.dstip), "raw_options": self._hex(o.raw_options)}
         if name == "udp": return {"srcport": o.srcport, "dstport": o.dstport, "len": o.len, "csum": o.csum}
         if name == "tcp": return {"srcport": o.srcport, "dstport": o.dstport, "seq": o.seq, "ack": o.ack, "off": o.off, "res": o.res, "flags": o.flags,
-                                  "win": o.win, "csum": o.csum, "urg": o.urg, "options": [self._opt(x) for x in o.options]}
+                                  "win": o.win, "csum": o.csum, "urg": o.urg, "options": self._lst(o.options, self._opt)}
         if name == "icmp": return {"type": o.type, "code": o.code, "csum": o.csum}
         mod = type(o).__module__.rsplit(".", 1)[-1]
         if name == "echo" and mod == "icmp": return {"id": o.id, "seq": o.seq}
         if name == "unreach" and mod == "icmp": return {"unused": o.unused, "next_mtu": o.next_mtu}
         if name == "time_exceeded": return {"unused": o.unused}
-        if name == "lldp": return {"tlvs": [self._tlv(t) for t in o.tlvs]}
+        if name == "lldp": return {"tlvs": self._lst(o.tlvs, self._tlv)}
         g = lambda a: getattr(o, a, None)
         if name == "mpls": return {"label": o.label, "tc": o.tc, "s": o.s, "ttl": o.ttl}
         if name == "eapol": return {"version": o.version, "type": o.type, "bodylen": o.bodylen}
         if name == "eap": return {"code": o.code, "id": o.id, "length": o.length, "type": g("type")}
         if name == "vxlan": return {"vni": o.vni}
         if name == "rip": return {"command": o.command, "version": o.version,
-                                  "entries": [[e.address_family, e.route_tag, self._ip(e.ip), self._ip(e.netmask), self._ip(e.next_hop), e.metric] for e in o.entries]}
+                                  "entries": self._lst(o.entries, lambda e: [e.address_family, e.route_tag, self._ip(e.ip), self._ip(e.netmask), self._ip(e.next_hop), e.metric])}
         if name == "dns": return {"id": o.id, "qr": bool(o.qr), "opcode": o.opcode, "aa": bool(o.aa), "tc": bool(o.tc), "rd": bool(o.rd), "ra": bool(o.ra),
                                   "z": bool(o.z), "ad": bool(o.ad), "cd": bool(o.cd), "rcode": o.rcode,
-                                  "questions": [[self._dn(q.name), q.qtype, q.qclass] for q in o.questions], "answers": [self._rr(r) for r in o.answers],
-                                  "authorities": [self._rr(r) for r in o.authorities], "additional": [self._rr(r) for r in o.additional]}
+                                  "questions": self._lst(o.questions, lambda q: [self._dn(q.name), q.qtype, q.qclass]), "answers": self._lst(o.answers, self._rr),
+                                  "authorities": self._lst(o.authorities, self._rr), "additional": self._lst(o.additional, self._rr)}
         if name == "ipv6": return {"v": o.v, "tc": o.tc, "flow": o.flow, "payload_length": o.payload_length, "nh": o.next_header_type, "hop_limit": o.hop_limit,
                                    "srcip": o.srcip.raw.hex(), "dstip": o.dstip.raw.hex(),
-                                   "ext": [[getattr(e, "TYPE", None), e.next_header_type, self._hex(getattr(e, "raw_body", None))] for e in o.extension_headers]}
+                                   "ext": self._lst(o.extension_headers, lambda e: [getattr(e, "TYPE", None), e.next_header_type, self._hex(getattr(e, "raw_body", None))])}
         if name == "icmpv6": return {"type": o.type, "code": o.code, "csum": o.csum}
         if name == "echo": return {"id": o.id, "seq": o.seq}                   # icmpv6.echo (k = echo6)
         if name == "unreach": return {"unused": o.unused}                      # icmpv6.unreach (k = unreach6)
@@ -344,7 +381,7 @@ class C15(Check):
         if name == "gre": return {"type": o.type, "ver": o.ver, "ssr": bool(o.strict_source_route), "recursion": o.recursion, "csum": o.csum, "route_offset": o.route_offset,
                                   "key": o.key, "seq": o.seq, "routing": None if o.routing is None else [[a, b, c, self._hex(d)] for a, b, c, d in o.routing]}
         if name == "igmp": return {"vt": o.ver_and_type, "mrt": o.max_response_time, "csum": o.csum, "addr": None if o.address is None else self._ip(o.address),
-                                   "groups": [[r.type, self._ip(r.address), [self._ip(a) for a in r.source_addresses], self._hex(r.aux)] for r in o.group_records],
+                                   "groups": self._lst(o.group_records, lambda r: [r.type, self._ip(r.address), [self._ip(a) for a in r.source_addresses], self._hex(r.aux)]),
                                    "extra": self._hex(o.extra)}
         if name == "dhcp":
             ch = o.chaddr
@@ -352,7 +389,7 @@ class C15(Check):
             return {"op": o.op, "htype": o.htype, "hlen": o.hlen, "hops": o.hops, "xid": o.xid, "secs": o.secs, "flags": o.flags, "ciaddr": self._ip(o.ciaddr),
                     "yiaddr": self._ip(o.yiaddr), "siaddr": self._ip(o.siaddr), "giaddr": self._ip(o.giaddr), "chaddr": None if ch is None else self._mac(ch),
                     "sname": self._hex(o.sname), "file": self._hex(o.file), "magic": self._hex(o.magic),
-                    "options": None if opts is None else [[c, self._dhcp_raw(v)] for c, v in opts.items()]}
+                    "options": None if opts is None else self._lst(opts.items(), lambda cv: [cv[0], self._dhcp_raw(cv[1])])}
         return {}
 
     @staticmethod
@@ -385,6 +422,7 @@ class C15(Check):
 
     def _ndo(self, o):
         out = []
+        if len(o.options) > self._lim: return ["!%d elements, the frame has %d octets" % (len(o.options), self._lim)]
         for x in o.options:
             n = type(x).__name__
             if n.endswith("LinkLayerAddress"): out.append({"t": x.TYPE, "addr": self._mac(x.address)})
@@ -400,38 +438,43 @@ class C15(Check):
         if name == "tcp" and any(getattr(x, "type", None) == 30 for x in o.options): return False
         return True
 
-    def chain(self, o, frame):
+    MAX_LAYERS = 70000        # more layers than a frame that fits a packet-in has octets
+
+    def chain(self, o, frame, compact=False):
         """[layer, ..., terminal]; a layer = {"k": class, "parsed": bool, "raw": hex of the bytes the object was given, attrs...}.
-        Stops (terminal {"k":"foreign"}) at the first object of an un-modelled class: the model hands over there."""
+        Stops (terminal {"k":"foreign"}) at the first object of an un-modelled class: the model hands over there.
+        compact (long frames): byte strings as [length, digest]."""
         out = []; n = 0
-        while isinstance(o, self.packet_base) and n < 4000:
+        hx = (lambda x: digest(x) if isinstance(x, (bytes, bytearray)) else self._hex(x)) if compact else self._hex
+        while isinstance(o, self.packet_base) and n < self.MAX_LAYERS:
             n += 1
             name = type(o).__name__
             if not self._is_modelled(o):
                 r = getattr(o, "raw", None)
                 out.append({"k": "foreign", "cls": "mptcp" if name == "tcp" else name,
-                            "raw": self._hex(r), "parsed": bool(getattr(o, "parsed", False))})
+                            "raw": hx(r), "parsed": bool(getattr(o, "parsed", False))})
                 return out
             k = name + "6" if name in ("echo", "unreach") and type(o).__module__.endswith("icmpv6") else name
-            L = {"k": k, "parsed": bool(o.parsed), "raw": self._hex(getattr(o, "raw", None))}
+            L = {"k": k, "parsed": bool(o.parsed), "raw": hx(getattr(o, "raw", None))}
             if name in NO_RAW: del L["raw"]              # icmp.parse does not keep raw; the NDP classes keep a slice that depends on the options
             if o.parsed or name in ("lldp", "llc"):
+                self._lim = max(64, len(frame))
                 L.update(self.attrs(o))
             out.append(L)
             if not o.parsed:
                 # an object whose parse gave up: what matters is that it keeps its bytes and has no next (pack() returns raw)
-                out.append({"k": "none"} if o.next is None else {"k": "bytes", "data": self._hex(o.next)} if isinstance(o.next, bytes) else {"k": "object", "cls": type(o.next).__name__})
+                out.append({"k": "none"} if o.next is None else {"k": "bytes", "data": hx(o.next)} if isinstance(o.next, bytes) else {"k": "object", "cls": type(o.next).__name__})
                 return out
             o = o.next
         if o is None: out.append({"k": "none"})
-        elif isinstance(o, bytes): out.append({"k": "bytes", "data": o.hex()})
+        elif isinstance(o, bytes): out.append({"k": "bytes", "data": hx(o)})
         else: out.append({"k": "object", "cls": type(o).__name__})
         return out
 
     def skeleton(self, o):
         """(class, parsed) of every layer down to the terminal, all classes (used to compare PacketIn.parsed with the direct parse and by the oracle)"""
         out = []; n = 0
-        while isinstance(o, self.packet_base) and n < 4000:
+        while isinstance(o, self.packet_base) and n < self.MAX_LAYERS:
             n += 1
             r = getattr(o, "raw", None)
             pf = getattr(o, "parsed", "!missing")
@@ -452,7 +495,7 @@ class C15(Check):
         (IPv4: to its total-length field, clamped to the buffer)."""
         n = 0
         if getattr(o, "raw", None) != frame: return "the ethernet object does not keep the frame"
-        while isinstance(o, self.packet_base) and n < 4000:
+        while isinstance(o, self.packet_base) and n < self.MAX_LAYERS:
             n += 1
             r = getattr(o, "raw", None)
             if isinstance(r, bytes) and r not in frame: return "raw of %s is not a slice of the frame" % type(o).__name__
@@ -481,17 +524,27 @@ class C15(Check):
             if isinstance(e, (KeyboardInterrupt, SystemExit)): raise
             obs["parse_exc"] = self._exc("parse", e)
             p = None
+        long = is_long(case)
         if p is not None:
-            obs["chain"] = self.chain(p, b)
+            obs["chain"] = self.chain(p, b, long)
             obs["skel"] = self.skeleton(p)
             obs["slices"] = self._slices_ok(p, b)
             # the same parse result used again and again (HARDENING 1-2): str(), pack(), str() once more, dump(), pack() once more.
             # Every one must return, and re-serialising must give the same bytes (hdr() may fill in lengths / checksums, but only once).
             again = self._second_look(case)
-            for stage, key, f in (("str", "str0", lambda: (str(p), "ok")[1]), ("pack", "pack", lambda: p.pack().hex()), ("str", "str", lambda: (str(p), "ok")[1]),
-                                  ("dump", "dump", lambda: (p.dump(), "ok")[1]), ("pack", "pack2", lambda: p.pack().hex())):
-                if not again and key in ("str0", "pack2"):
-                    obs[key] = "ok" if key == "str0" else obs["pack"]; continue
+            pk = (lambda: digest(p.pack())) if long else (lambda: p.pack().hex())
+            # … and what a handler does with it besides: len() (packet_base.__len__ is len(pack())) and find() — of a class that is not in the
+            # chain (walks to the end) and of the class of the innermost header (returns it)
+            def find():
+                inner = None; q = p; n = 0
+                while isinstance(q, self.packet_base) and n < self.MAX_LAYERS: inner = q; q = q.next; n += 1
+                p.find("no_such_header"); p.find(type(inner)); p.find(type(inner).__name__)
+                return "ok"
+            for stage, key, f in (("str", "str0", lambda: (str(p), "ok")[1]), ("pack", "pack", pk), ("str", "str", lambda: (str(p), "ok")[1]),
+                                  ("dump", "dump", lambda: (p.dump(), "ok")[1]), ("pack", "pack2", pk), ("len", "len", lambda: len(p)), ("find", "find", find)):
+                if not again and key in ("str0", "pack2", "len", "find"):
+                    if key in ("str0", "pack2"): obs[key] = "ok" if key == "str0" else obs["pack"]
+                    continue
                 try:
                     obs[key] = f()
                 except BaseException as e:
@@ -510,13 +563,26 @@ class C15(Check):
             q = ev.parsed
             obs["pktin"] = self.skeleton(q)
             obs["pktin_same_object"] = ev.parsed is q
-            if p is not None and self.chain(q, b) != obs["chain"]: obs["reparse_differs"] = True
+            if p is not None and not self._same_upto_cutoff(self.chain(q, b, long), obs["chain"]): obs["reparse_differs"] = True
         except BaseException as e:
             if isinstance(e, (KeyboardInterrupt, SystemExit)): raise
             obs["pktin"] = self._exc("packet_in", e)
         if self._with_handlers(case) and not isinstance(obs["pktin"], dict):
             obs["handlers"] = self.handlers(b)
         return obs
+
+    @classmethod
+    def _same_upto_cutoff(cls, a, b):
+        """two parses of the same bytes (skeletons or chains: [layer, …, terminal]) are the same — except that, hundreds of layers down a
+        label stack, where the interpreter ran out of stack depends on how deep the CALLER was (PacketIn.parsed sits two frames deeper than
+        a direct call): there the two must agree on every layer both have, and the shorter one must end in kept bytes"""
+        if a == b: return True
+        m = min(len(a), len(b)) - 1
+        if m < cls.CUTOFF_MIN: return False
+        def layer(L): return L[:3] if isinstance(L, list) else L          # a skeleton entry's 4th field is the kind of `next`
+        short = a if len(a) <= len(b) else b
+        term = short[-1]
+        return [layer(L) for L in a[:m]] == [layer(L) for L in b[:m]] and (term[0] == "bytes" if isinstance(term, list) else term.get("k") == "bytes")
 
     @staticmethod
     def _second_look(case):
@@ -538,7 +604,7 @@ class C15(Check):
         """the handler oracle runs on every valid frame and witness, every truncation up to 64 bytes and every other longer one, a quarter of the
         TCP-tail family and one generated case in sixteen (it costs as much as everything else together).  All of these have `pktin`."""
         how = case.get("how", ""); h = int(case["hex"][-2:] or "0", 16)
-        if how.startswith(("valid", "witness")): return True
+        if how.startswith(("valid", "witness", "long")): return True
         if how.startswith("trunc"): return h % 2 == 1 or len(case["hex"]) <= 2 * 64        # every short prefix, every other long one
         if how.startswith("tcp-tail"): return h % 4 == 3
         return h % 16 == 3
@@ -595,7 +661,7 @@ class C15(Check):
         if sk[-1][0] not in ("none", "bytes"): return "progress: chain ends in %s" % sk[-1][0]
         if obs["slices"]: return "progress: " + obs["slices"]
         if "pktin" in obs:
-            if obs["pktin"] != sk: return "PacketIn.parsed differs from ethernet(raw): %s vs %s" % (obs["pktin"][:3], sk[:3])
+            if not self._same_upto_cutoff(obs["pktin"], sk): return "PacketIn.parsed differs from ethernet(raw): %s vs %s" % (obs["pktin"][:3], sk[:3])
             if obs.get("reparse_differs"): return "progress: parsing the same bytes again (after another frame) gives a different result"
             if not obs.get("pktin_same_object"): return "PacketIn.parsed re-parses on every access"
         for name, x in sorted(obs.get("handlers", {}).items()):
@@ -610,6 +676,9 @@ class C15(Check):
             return "progress: pack() of the same parse result gives different bytes the second time"
         fails = ["%s() of the parse result raises %s in %s" % (stage, obs[stage]["exc"], obs[stage]["where"])
                  for stage in ("pack", "str", "dump") if isinstance(obs[stage], dict)]
+        # len() is len(pack()): a failure of its own only where pack() returned; find() walks the chain
+        fails += ["%s() of the parse result raises %s in %s" % (stage, obs[stage]["exc"], obs[stage]["where"])
+                  for stage in ("len", "find") if isinstance(obs.get(stage), dict) and not (stage == "len" and isinstance(obs["pack"], dict))]
         for f in fails:
             k = self._finding_key(case, obs, f)
             kf = self._known.match(self.id, k)
@@ -632,10 +701,10 @@ class C15(Check):
             x = obs["parse_exc"]; return "parse:%s:%s" % (x["where"], x["exc"])
         if failure.startswith("PacketIn.parsed raises"):
             x = obs["pktin"]; return "packet_in:%s:%s" % (x["where"], x["exc"])
-        m = re.match(r"(pack|str|dump)\(\) of the parse result raises", failure)
+        m = re.match(r"(pack|str|dump|len|find)\(\) of the parse result raises", failure)
         if m:
             x = obs["pack2" if failure.endswith("when called again") else m.group(1)]
-            st = "print" if m.group(1) in ("str", "dump") else "pack"
+            st = "print" if m.group(1) in ("str", "dump") else m.group(1)
             return "%s:%s:%s" % (st, x["where"], x["exc"])
         m = re.match(r"handler (\w+) raises", failure)
         if m:
@@ -650,6 +719,12 @@ class C15(Check):
     def shrink_candidates(self, case):
         b = bytes.fromhex(case["hex"])
         n = len(b)
+        if n > LONG:
+            # coarse steps only: what fails on a long frame usually depends on how much stack the caller has left, and a witness shrunk to
+            # the last octet that still fails here would not fail one frame higher up (the replay)
+            for k in (n // 2, n - n // 4, n - n // 8):
+                yield frame_case(b[:k], "shrunk")
+            return
         for k in (n // 2, n - 16, n - 4, n - 1):
             if 0 <= k < n: yield frame_case(b[:k], "shrunk")
         # zero trailing bytes one at a time (keeps lengths, simplifies the witness)
@@ -660,8 +735,27 @@ class C15(Check):
     def model_request(self, case):
         # the phase-1 model (`Cfg.core`) is asked as well for the fixed corpus and one generated case in eight
         how = case.get("how", "")
+        if is_long(case): return None                     # asked by model_request2
         core = not how.startswith(("key", "set", "marks", "splice", "indel", "random", "nest")) or int(case["hex"][-2:] or "0", 16) % 16 == 0
         return {"op": "parse", "cfg": "repaired", "raw": case["hex"], "core": core, "fix": self.fixes, "var": self.vars}
+
+    CUTOFF_MIN = 250      # layers.  CPython's default limit (1000 frames) less what the caller uses, at 2-3 frames per nested constructor
+
+    def model_request2(self, case, obs):
+        """Long frames: compact answers, and the one thing the model leaves abstract is read off the implementation's result — how many nested
+        constructor activations the interpreter had room for.  An MPLS label stack is parsed by one nested constructor per entry, outside the
+        nesting guard; when the interpreter runs out of stack the bare except in mpls.parse keeps the rest as bytes (mpls.py "Recursion depth?").
+        Where the observed chain ends like that — a parsed entry without the bottom-of-stack bit, at least one more entry's worth of octets
+        kept as bytes, hundreds of layers down — the model is given that number of activations (`d`); everything else (every field of every
+        layer, the bytes kept, pack(), len(), str()) is the model's own.  case["model"] == False: the model's list walkers are quadratic, the
+        longest option / record / header lists are oracle-only."""
+        if not is_long(case) or case.get("model") is False or "skel" not in obs: return None
+        req = {"op": "parse", "cfg": "repaired", "raw": case["hex"], "core": False, "compact": True, "fix": self.fixes, "var": self.vars}
+        sk = obs["skel"]; ch = obs["chain"]
+        if len(sk) - 1 >= self.CUTOFF_MIN and sk[-2][0] == "mpls" and sk[-2][1] is True and sk[-1][0] == "bytes" and sk[-1][1] >= 4 \
+                and len(ch) == len(sk) and ch[-2].get("s") == 0:
+            req["d"] = len(sk) - 1
+        return req
 
     @staticmethod
     def _mview(resp):
@@ -669,7 +763,10 @@ class C15(Check):
         if resp.get("known") == "K14": return {"declined": "K14"}
         if "exc" in resp: return {"exc": resp["exc"]}
         out = {"chain": resp["chain"]}
-        if resp.get("pack") is not None: out["pack"] = resp["pack"]        # null = outside the pack model (a phase-2 class, MPTCP)
+        if resp.get("pack") is not None:                                   # null = outside the pack model (a phase-2 class, MPTCP)
+            out["pack"] = resp["pack"]
+            pk = resp["pack"]                                              # hex, [length, digest] (compact answers) or {"exc":…}
+            out["len"] = len(pk) // 2 if isinstance(pk, str) else pk[0] if isinstance(pk, list) else pk
         if resp.get("print") is not None: out["print"] = resp["print"]     # null = outside the print model (MPTCP)
         return out
 
@@ -706,7 +803,11 @@ class C15(Check):
         # pack / print are compared where the model has them: pack() for chains of phase-1 classes, str()/dump() for every chain
         # without an MPTCP layer
         if m.get("pack") is not None:
-            out["pack"] = obs["pack"] if isinstance(obs["pack"], str) else {"exc": obs["pack"]["exc"]}
+            pk = obs["pack"]
+            out["pack"] = pk if not isinstance(pk, dict) else {"exc": pk["exc"]}
+            # len() where it was taken (fixed corpus, long frames, one generated case in eight), else the length of what pack() returned
+            ln = obs.get("len", len(pk) // 2 if isinstance(pk, str) else pk[0] if isinstance(pk, list) else pk)
+            out["len"] = ln if not isinstance(ln, dict) else {"exc": ln["exc"]}
         if m.get("print") is not None:
             bad = [obs[k] for k in ("str", "dump") if isinstance(obs[k], dict)]
             out["print"] = {"exc": bad[0]["exc"]} if bad else "ok"
@@ -859,6 +960,82 @@ class C15(Check):
                     if c != f[i]:
                         yield frame_case(FR.fix_checksums(f[:i] + bytes([c]) + f[i + 1:]), "dhcpcode %s %d %02x" % (name, i, c))
 
+    # ------------------------------------------------------------------ long frames
+    # family -> (builder(n), octets per unit, octets of overhead, largest n the model is asked about — its list walkers are quadratic)
+    LONG_FAMILIES = collections.OrderedDict([
+        ("mpls",          (lambda n: FR.j_mpls(n), 4, 14, 2000)),
+        ("mpls-bos-ip",   (lambda n: FR.j_mpls(n, True, FR.j_ip4(17, FR.j_udp(7, 9, b"under the label stack"))), 4, 70, 2000)),
+        ("mpls-mcast",    (lambda n: FR.j_mpls(n, False, b"xyz", typ=0x8848), 4, 17, 2000)),
+        ("vlan-mpls",     (lambda n: FR.j_mpls(n, False, b"", vlans=3), 4, 26, 2000)),
+        ("snap-mpls",     (lambda n: FR.j_snap_mpls(n), 4, 22, 2000)),
+        ("vlan",          (lambda n: FR.j_vlan(n), 4, 16, 10 ** 6)),
+        ("vlan-ip",       (lambda n: FR.j_vlan(n, 0x0800, FR.j_ip4(17, FR.j_udp(7, 9, b"under the label stack"))), 4, 70, 10 ** 6)),
+        ("ip6ext-mix-udp", (lambda n: FR.j_ip6ext(n, "mix", 17, FR.j_udp(1, 2, b"abcd")), 8, 66, 1000)),
+        ("ip6ext-hbh-none", (lambda n: FR.j_ip6ext(n, 0, 59, b""), 8, 54, 1000)),
+        ("ip6ext-dst-icmp", (lambda n: FR.j_ip6ext(n, 60, 58, FR.j_icmp6(128, 0, bytes(8))), 8, 66, 1000)),
+        ("ip6ext-rt-tcp", (lambda n: FR.j_ip6ext(n, 43, 6, FR.j_tcp(b"data")), 8, 78, 1000)),
+        ("ip6ext-frag-udp", (lambda n: FR.j_ip6ext(n, 44, 17, FR.j_udp(1, 2, b"abcd")), 8, 66, 1000)),
+        ("icmp-unreach",  (lambda n: FR.j_icmp_quote(n, (3,)), 28, 50, 10 ** 6)),
+        ("icmp-errors",   (lambda n: FR.j_icmp_quote(n, (3, 11, 11, 3, 5)), 28, 50, 10 ** 6)),
+        ("icmp6-errors",  (lambda n: FR.j_icmp6_quote(n, (1, 3, 2, 1)), 48, 70, 10 ** 6)),
+        ("gre-ip",        (lambda n: FR.j_gre(n), 24, 22, 10 ** 6)),
+        ("gre-eth",       (lambda n: FR.j_gre(n, True), 38, 22, 10 ** 6)),
+        ("vxlan",         (lambda n: FR.j_vxlan(n), 50, 16, 10 ** 6)),
+        ("dhcp-opts",     (lambda n: FR.j_dhcp(n), 2.84, 290, 1000)),
+        ("dhcp-opts3",    (lambda n: FR.j_dhcp(n, 3), 4.7, 290, 1000)),
+        ("lldp-tlvs",     (lambda n: FR.j_lldp(n), 5.8, 40, 1000)),
+        ("dns-questions", (lambda n: FR.j_dns(n, "q"), 6, 80, 500)),
+        ("dns-records",   (lambda n: FR.j_dns(n, "rr"), 18.5, 80, 300)),
+        ("dns-ptrchain",  (lambda n: FR.j_dns(n, "ptrchain"), 4, 100, 400)),       # CPython follows a pointer by a nested call: ~970 at most
+        ("dns-labels",    (lambda n: FR.j_dns(n, "labels"), 2, 64, 300)),
+        ("rip-entries",   (lambda n: FR.j_rip(n), 20, 46, 1000)),
+        ("igmp-records",  (lambda n: FR.j_igmp3(n), 10, 42, 1000)),
+        ("nd-rs-opts",    (lambda n: FR.j_nd(n, 133), 14, 62, 500)),
+        ("nd-ra-opts",    (lambda n: FR.j_nd(n, 134), 14, 70, 500)),
+        ("nd-ns-opts",    (lambda n: FR.j_nd(n, 135), 14, 78, 500)),
+        ("nd-na-opts",    (lambda n: FR.j_nd(n, 136), 14, 78, 500)),
+    ] + [("big-" + k, (lambda n, k=k: FR.j_big(k, n), 1, 150, 10 ** 6)) for k in ("udp", "tcp", "echo", "echo6", "arp", "snap", "eap", "frag", "raw")])
+
+    def long_nmax(self, fam):
+        _, unit, over, cap = self.LONG_FAMILIES[fam]
+        if fam == "dns-ptrchain": return 4000                         # a pointer has 14 bits
+        if fam == "dns-labels": return cap                            # pack() of a long name is cubic in its labels
+        if fam == "vxlan": return 150                                 # pack() of nested UDP: exponential in the (guarded) depth, times the frame length
+        return int((FR.JUMBO_MAX - over) // unit)
+
+    def long_case(self, fam, n, cut=None):
+        build, unit, over, cap = self.LONG_FAMILIES[fam]
+        f = build(n)[:FR.JUMBO_MAX]
+        if cut is not None: f = f[:max(14, len(f) - cut)]
+        return frame_case(f, "long %s %d%s" % (fam, n, "" if cut is None else " cut%d" % cut), model=bool(n <= cap))
+
+    # the fixed part (every run, both tiers): the chains — label stacks (also around the depth at which CPython runs out of stack), tag stacks, encapsulation,
+    # error quoting — and the long payloads at the most a packet-in can carry ("max" = long_nmax); the list families (options, TLVs, records,
+    # entries, extension headers: parse time linear in n, eight parses per case) at a middle size that the model is asked about.  Their
+    # maximum sizes (oracle only: the model's list walkers are quadratic) are in generate(): a seed-dependent four of them in the quick
+    # tier, all in the thorough tier.
+    LONG_FIXED = {"mpls": (497, 600, 1000, 2000, 4000, "max"), "mpls-bos-ip": (1000, "max"), "mpls-mcast": (800,), "vlan-mpls": (1200,), "snap-mpls": (700,),
+                  "vlan": (1000, "max"), "vlan-ip": ("max",), "vxlan": (100,), "dns-ptrchain": (100, 400, 1500, 4000), "dns-labels": (60, 300),
+                  "big-udp": (9000, "max"), "big-tcp": (9000, "max")}
+
+    def long_fixed(self):
+        for fam, (build, unit, over, cap) in self.LONG_FAMILIES.items():
+            nmax = self.long_nmax(fam)
+            for n in self.LONG_FIXED.get(fam, ("max",) if cap > nmax else (min(cap, nmax) // 2,)):
+                yield self.long_case(fam, nmax if n == "max" else n)
+
+    def long_lists_max(self):
+        return [fam for fam, (build, unit, over, cap) in self.LONG_FAMILIES.items() if cap <= self.long_nmax(fam) and fam not in self.LONG_FIXED]
+
+    def g_long(self, rng):
+        """a family, a size between a few hundred octets beyond the ordinary MTU and the most a packet-in can carry; one in three cut short
+        somewhere in the last repeated units (the end of the buffer inside a loop that has run thousands of times)"""
+        fam = rng.choice(list(self.LONG_FAMILIES))
+        nmax = self.long_nmax(fam)
+        lo = max(1, min(nmax, int(LONG // self.LONG_FAMILIES[fam][1]) + 1))
+        n = rng.choice([rng.randint(lo, nmax), rng.randint(lo, min(nmax, 4 * lo)), nmax - rng.randrange(3)])
+        return self.long_case(fam, max(1, n), rng.randrange(1, 64) if rng.randrange(3) == 0 else None)
+
     def key_sweeps(self):
         """FULL sweeps, both tiers: all 256 values at
         (1) the protocol-selector / type / code / length fields and option kind+length octets of the innermost header of every corpus frame
@@ -919,6 +1096,15 @@ class C15(Check):
         n = 2500 if tier == "quick" else 90000
         for _ in range(n):
             yield self.g_structured(rng)
+        # 4. long frames, LAST (a change that makes parse results accumulate between frames — a class-level list — would make every later
+        # case pay for their thousands of elements): the fixed sizes (both tiers), the list families at the most a packet-in can carry, then
+        # random families and sizes
+        for c in self.long_fixed(): yield c
+        lists = self.long_lists_max()
+        for fam in (sorted(rng.sample(lists, 4)) if tier == "quick" else lists):
+            yield self.long_case(fam, self.long_nmax(fam))
+        for _ in range(8 if tier == "quick" else 120):
+            yield self.g_long(rng)
 
     def g_structured(self, rng):
         name, f = rng.choice(self._frames)
@@ -960,32 +1146,26 @@ class C15(Check):
         return frame_case(r, "random")
 
     def g_nest(self, rng):
-        """deep encapsulation within one frame: the recursion depth of the parsers is bounded only by the frame length"""
+        """deep encapsulation within one frame: the recursion depth of the parsers is bounded only by the frame length (plain-bytes builders:
+        the marks of FR.cat cost quadratic time in the depth)"""
+        S = struct.pack
         w = rng.randrange(5)
         k = rng.choice([1, 2, 5, 20, 60, 150, 340, 370])
         if w == 0:
-            p = FR.MB(b"ab")
-            typ = 0x9999
-            for _ in range(k): p = FR.vlan(typ, p); typ = 0x8100
-            return frame_case(FR.eth(typ, p), "nest vlan %d" % k)
+            return frame_case(FR.j_eth(0x8100, S("!HH", 0xaabc, 0x8100) * (k - 1) + S("!HH", 0xaabc, 0x9999) + b"ab"), "nest vlan %d" % k)
         if w == 1:
             k = min(k, 50)
-            p = FR.ip4(17, FR.udp(1, 2, b"12345678"))
-            for _ in range(k): p = FR.ip4(1, FR.icmp(rng.choice([3, 11]), 0, FR.unreach(0, p)))
-            return frame_case(FR.eth(0x0800, p), "nest icmp-error %d" % k)
+            p = FR.j_ip4(17, FR.j_udp(1, 2, b"12345678"))
+            for _ in range(k): p = FR.j_ip4(1, FR.j_icmp(rng.choice([3, 11]), 0, bytes(4) + p))
+            return frame_case(FR.j_eth(0x0800, p), "nest icmp-error %d" % k)
         if w == 2:
-            p = FR.MB(b"bottom")
-            for i in range(k): p = FR.mpls(i, 1 if i == 0 else 0, p)
-            return frame_case(FR.eth(0x8847, p), "nest mpls %d" % k)
+            p = b"bottom"
+            for i in range(k): p = S("!HBB", i >> 4, ((i & 0xf) << 4) | (3 << 1) | (1 if i == 0 else 0), 64) + p
+            return frame_case(FR.j_eth(0x8847, p), "nest mpls %d" % k)
         if w == 3:
-            k = min(k, 40)
-            p = FR.MB(b"payload!")
-            for _ in range(k): p = FR.ip4(47, FR.gre(0x0800, p))
-            return frame_case(FR.eth(0x0800, p), "nest gre %d" % k)
+            return frame_case(FR.j_gre(min(k, 40)), "nest gre %d" % min(k, 40))
         k = min(k, 6)            # pack() of nested UDP is exponential in the depth (udp.checksum packs the payload again)
-        p = FR.eth(0x9999, b"in")
-        for _ in range(k): p = FR.eth(0x0800, FR.ip4(17, FR.udp(1, 4789, FR.vxlan(1, p))))
-        return frame_case(p, "nest vxlan %d" % k)
+        return frame_case(FR.j_vxlan(k), "nest vxlan %d" % k)
 
     def search_cases(self, rng, tier):
         for c in self.corpus(): yield c
@@ -998,7 +1178,7 @@ class C15(Check):
 
 C15.theorems = ["Pox.C15." + t for t in (
     # part I: the tree as it is
-    "parse_total", "parse_total_any_var", "progress_recorded", "print_total", "repack_total", "tcp_options_fuel", "refines_c14",
+    "parse_total", "parse_total_any_var", "progress_recorded", "print_total", "repack_total", "repack_total_cutoff", "tcp_options_fuel", "refines_c14",
     # part II: every combination of repairs
     "parse_total_with", "parse_total_fixed", "parse_total_guarded", "progress_recorded_with", "repack_total_with", "print_total_with",
     # part III: reverted trees, regression witnesses
@@ -1013,7 +1193,8 @@ C15.level_text = (
     "returns, for every input however long or nested, an object chain that covers and tiles the input and whose only opaque layer can be a TCP segment with the "
     "MPTCP option (parse_total - no hypothesis on the input, no registered finding left; progress_recorded); str()/dump() of every result without an MPTCP "
     "layer is defined, phase-2 classes included (print_total); pack() is defined for every result inside the pack model: the phase-1 classes and mpls / eapol / "
-    "eap behind the frame-level headers (repack_total). The same holds for every other combination of repairs a tree may have (parse_total_with: only the "
+    "eap behind the frame-level headers (repack_total; repack_total_cutoff: also where the interpreter ran out of stack in the middle of a label stack "
+    "and the rest of it was kept as bytes). The same holds for every other combination of repairs a tree may have (parse_total_with: only the "
     "findings NOT repaired can raise, within len/4+1 activations; parse_total_guarded: the nesting guard alone discharges the budget; ..._with). Regression "
     "witnesses of reverted trees: nesting_defect (a frame of 14+4d bytes raises RecursionError for every budget d without K1), known_k* (one decided witness "
     "per registered finding, each parsing once its repair is in: known_witnesses_repaired), nesting_guard_witness, dns_names_witness (a compression-pointer "
@@ -1023,8 +1204,9 @@ C15.level_text = (
     "the option walker, IGMP v1-v3, GRE (+source routing), VXLAN, RIP, DHCP (fixed part + option walker), DNS (questions, records, name decompression). The "
     "phase-1 model returns what the total C14 parser returns (refines_c14). Every run re-checks BOTH models (phase-2 parsers modelled / left foreign) against the "
     "real classes on every truncation and single-byte corruption of 160 valid frames covering all 21 modules, and evaluates the oracle: nothing raises in "
-    "parse, PacketIn.parsed, str(), pack(), str() again, dump(), pack() again (same bytes); the same bytes parsed again after a different frame went through the "
-    "process give the same result; real PacketIn events for the corpus and one generated frame in sixteen into the l2_learning (plain and transparent; flood, "
+    "parse, PacketIn.parsed, str(), pack(), str() again, dump(), pack() again (same bytes), len(), find(); the same bytes parsed again after a different frame went through the "
+    "process give the same result; the same for long frames of up to 65000 octets (what a packet-in can carry) made of thousands of repeated label stack entries, "
+    "tags, extension headers, quoted errors, encapsulations, options, TLVs, records and compression pointers, compared with the model in digest form; real PacketIn events for the corpus and one generated frame in sixteen into the l2_learning (plain and transparent; flood, "
     "drop and flow-install paths with ofp_match.from_packet) and discovery handlers return.")
 C15.level_note = (
     "The theorems are about the hand-written model Model/PacketParse.lean; they are tied to the code only by the differential run. PARTIAL: what a TCP segment "
@@ -1033,9 +1215,13 @@ C15.level_note = (
     "code + bytes); pack() of the phase-2 classes other than mpls, eapol, eap is not modelled (oracle only: extending it needs the header-range facts of every "
     "class in the parse invariant and length bounds for what sits inside IPv4/UDP; C14's PacketExt has per-class hdr lemmas but no general pack theorem); "
     "str() of an object whose parse gave up prints constructor defaults and is checked by the oracle only. K14 (before its repair) is over-approximated. DNS: the "
-    "model follows up to 1025 compression pointers per name (a loop-free chain visits each of the 1024 reachable offsets at most once); CPython gives up (caught "
-    "RecursionError) when a chain is longer than the stack it has left - about 900 hops, which needs overlapping pointers - there the model says parsed and the "
-    "code says unparsed; neither raises. struct.pack('!I', len) in the ICMPv6 checksum is assumed not to overflow (frames < 4 GiB). Python's recursion limit is "
+    "model follows up to 1025 compression pointers per name (more than the interpreter's stack allows the code to follow); CPython gives up (caught "
+    "RecursionError) when a chain is longer than the stack it has left - about 970 hops; between that and 1025 the model says parsed and the "
+    "code says unparsed; neither raises (chains of 400 hops are model-compared, chains of 1500 and 4000 are checked by the oracle). An MPLS label stack is parsed "
+    "by one nested constructor per entry outside the nesting guard; where the interpreter runs out of stack (about 490 entries) mpls.parse's bare except keeps the "
+    "rest as bytes: the model is given the number of activations observed on the implementation for exactly those frames (a parsed entry without the bottom-of-stack "
+    "bit, another entry's worth of octets kept as bytes, at least 250 layers down) and its own budget (never exhausted) everywhere else. The model's list walkers are "
+    "quadratic: option / TLV / record / extension-header lists of more than 300-1000 elements and label stacks of more than 2000 entries are oracle-only. struct.pack('!I', len) in the ICMPv6 checksum is assumed not to overflow (frames < 4 GiB). Python's recursion limit is "
     "modelled abstractly as a number of nested constructor activations (CPython spends 2-3 frames per nested header). The print model contains the operations that "
     "can raise (%d/%i/%x conversions, the llc / lldp cases found in phase 1) and the try/except of packet_base.__str__ around _to_str. Exponential time of pack() on "
     "nested UDP encapsulation is outside the property. Event handlers are not modelled: the oracle drives l2_learning and discovery with real PacketIn events "
